@@ -5,7 +5,7 @@ try:
 except Exception:
     meta = {}
 conf = []
-for f in sorted(glob.glob('/tmp/mut/confirm*.log')):
+for f in sorted(glob.glob(__import__('os').environ.get('MUT_BASE','/tmp/mut') + '/confirm*.log')):
     conf += [l.strip() for l in open(f) if l.startswith(f'RESULT {ID}/{N} ')]
 meta.update({"property": ID, "origin": "independent sub-agent given only the property text and a scratch worktree",
              "confirmed_by_me": {"how": "tools/confirm_mutant.sh in the scratch worktree: patch applied, cargo test --workspace --offline, demo.sh on mutated tree, demo.sh on clean tree", "result": conf}})
